@@ -117,6 +117,11 @@ impl<'a> Oracle<'a> {
                 let mut best: Option<M> = None;
                 let last = if anchored { start } else { end };
                 for i in start..=last {
+                    // (an occurrence starting after the best end so far cannot
+                    // end earlier, nor at the same offset with a greater length)
+                    if best.map_or(false, |b| i > b.2) {
+                        break;
+                    }
                     for p in 0..self.pats.len() {
                         if self.occ(hay, p, i, end) {
                             let m = (p, i, i + self.pats[p].len());
